@@ -295,6 +295,23 @@ pub fn materialise(tree: &Tree, root: &Path) {
     apply_all_meta(tree, root);
 }
 
+/// Put names that are not valid UTF-8 into the directory `dir` of a materialised tree: two
+/// empty files and two empty directories whose names differ only in their invalid bytes
+/// (Latin-1 `caf\xe9` / `caf\xe8`, `d\xff` / `d\xfe`), then re-apply the metadata. Conserve
+/// does not back such names up (a documented non-goal); what it does with the rest of the
+/// tree must not suffer.
+pub fn add_undecodable_twins(tree: &Tree, root: &Path, dir: &str) {
+    use std::ffi::OsStr;
+    let d = fs_path(root, dir);
+    for name in [&b"caf\xe9"[..], &b"caf\xe8"[..]] {
+        let _ = std::fs::write(d.join(OsStr::from_bytes(name)), b"");
+    }
+    for name in [&b"d\xff"[..], &b"d\xfe"[..]] {
+        let _ = std::fs::create_dir(d.join(OsStr::from_bytes(name)));
+    }
+    apply_all_meta(tree, root);
+}
+
 /// (Re-)apply metadata to every node, children before parents.
 pub fn apply_all_meta(tree: &Tree, root: &Path) {
     // Reverse plain string order puts children before their parents.
